@@ -24,7 +24,8 @@ MANIFEST = {
 }
 
 REQUIRED = ["KV.C17.sem_accounting", "KV.C17.never_over_cap", "KV.C17.fifo_exactly_once",
-            "KV.C17.per_pair_order", "KV.C17.no_deadlock", "KV.C17.terminates", "KV.C17.maximal_run_delivers"]
+            "KV.C17.per_pair_order", "KV.C17.no_deadlock", "KV.C17.terminates", "KV.C17.maximal_run_delivers",
+            "KV.C17.pool_exactly_once", "KV.C17.chain_ring_partial"]
 
 HARNESS_EXTRA = [REPO + "/util/" + f for f in (
     "exception.cc", "integer_to_string.cc", "stream/chain.cc", "stream/multi_progress.cc", "stream/io.cc", "file.cc",
@@ -212,11 +213,11 @@ EXHAUSTIVE_QUICK = [
     (1, [2, 2], [2, 2], "por", 400), (2, [2, 2], [2, 2], "por", 600), (2, [2, 2], [1, 3], "por", 300),
 ]
 EXHAUSTIVE_THOROUGH = [
-    (1, [1], [1], "all", 10), (1, [2], [2], "all", 10), (2, [2], [2], "all", 400), (2, [2], [1, 1], "all", 40000),
+    (1, [1], [1], "all", 10), (1, [2], [2], "all", 10), (2, [2], [2], "all", 400), (2, [2], [1, 1], "all", 20000),
     (1, [1, 1], [2], "all", 10), (1, [1, 1], [1, 1], "all", 10), (2, [1, 1], [2], "all", 3000),
-    (2, [1, 1], [1, 1], "all", 40000), (2, [2, 1], [3], "por", 2000), (2, [2, 2], [4], "por", 2000),
-    (1, [2, 2], [2, 2], "por", 60000), (2, [2, 2], [2, 2], "por", 60000), (2, [2, 2], [1, 3], "por", 60000),
-    (2, [2, 2], [3, 1], "por", 60000), (2, [1, 2], [2, 1], "por", 60000), (2, [2], [2], "por", 100),
+    (2, [1, 1], [1, 1], "all", 20000), (2, [2, 1], [3], "por", 2000), (2, [2, 2], [4], "por", 2000),
+    (1, [2, 2], [2, 2], "por", 15000), (2, [2, 2], [2, 2], "por", 15000), (2, [2, 2], [1, 3], "por", 15000),
+    (2, [2, 2], [3, 1], "por", 15000), (2, [1, 2], [2, 1], "por", 15000), (2, [2], [2], "por", 100),
 ]
 
 
